@@ -38,3 +38,15 @@ reg("C18", "translation_validation", "translation validation of every line of _s
 reg("C20", "fault_enumeration", "exhaustive enumeration of the prefix-closed tree of establishment outcome sequences against a reference model of the retry loop",
     "Every outcome sequence (success / ConnectError / ConnectTimeout / unrelated failure at TCP-or-UDS and TLS stage, then exchange ok/failed) for retries 0..4: attempts, pauses, raised error and absence of post-establishment retries are compared with a 30-line reference model.",
     _SEQ_NOTE, "DESIGN.md 5 C20")
+reg("C09", "model_checking", "explicit-state BFS over pool operation sequences with a virtual clock; every transition judged against the property's rules from observed pre/post states",
+    "All sequences (depth 4 quick / 5 thorough) of request/open/close/tick/server-close over three origins per pool configuration, HTTP/1.1 and HTTP/2, both variants; states merged so deeper states are reached by chaining; rules R1 reuse, R2 idle limit, R3 dead connections never used and closed, R4 every close of a healthy idle connection explained.",
+    _SEQ_NOTE + " time.monotonic in http11/http2 is redirected to the virtual clock by rebinding the module-level name.", "DESIGN.md 5 C09")
+reg("C11", "exploration", "exhaustive enumeration of proxy configurations and proxy replies, judged from the bytes the simulated proxy saw before/after the tunnel boundary",
+    "Full product of proxy kind, credentials, proxy headers (with case-insensitive collisions), origin, request headers/body and proxy reply (CONNECT statuses, SOCKS method/auth/connect replies); the proxy peer's own byte-level parsers decide what reached which hop.",
+    _SEQ_NOTE, "DESIGN.md 5 C11")
+reg("C16", "model_checking", "ledger-based enumeration of timeout configurations with one read cut anywhere (explorer, bound 1) + pool-timeout scenarios on the virtual clock",
+    "Every simulated connect/start_tls/read/write of every connection type records its timeout argument and is compared with the configured value for 10 configurations; all orders of deadline vs release for queued requests, PoolTimeout exactly at enqueue+T.",
+    _SEQ_NOTE, "DESIGN.md 5 C16")
+reg("C17", "model_checking", "explicit-state search over all read segmentations x all caller max_bytes sequences of the upgrade hand-over",
+    "For 101 and CONNECT-2xx with 0..10 post-head bytes: every cut of the byte stream and every sequence of max_bytes in {1,2,3,5,64KiB}; the upgraded stream must yield exactly the post-head bytes, writes pass through, the connection is closed and never pooled again.",
+    _SEQ_NOTE, "DESIGN.md 5 C17")
